@@ -25,6 +25,12 @@ package sqlittle
 
 //@ type-invariant sqlittle.DB = self.db != nil
 
+// Open: a handle of its own: a new DB around a new db.Database.
+//@ func sqlittle.Open
+//@   props C20 C05
+//@   modifies * -M:S_db_KeyCol -M:S_sqlittle_columnIndex hdr_valid hdr_ps hdr_cookie jr_pos peer_state lk_shared lk_pending other_shared
+//@   ensures [own] err == nil ==> r0 != nil && fresh(r0) && fresh(r0.db)
+
 //@ func (*sqlittle.DB).SelectDone
 //@   props C06 C17
 //@   modifies * -M:S_sqlittle_columnIndex lk_shared lk_pending peer_state cc_now hdr_valid hdr_ps hdr_cookie jr_pos
